@@ -113,12 +113,19 @@ def main():
     meta["caught_by"] = [c for c, r in meta["checks"].items() if r["exit"] == 1]
     meta["caught_by_own_check"] = meta["checks"].get(pid, {}).get("exit") == 1
     notes = os.path.join(seed_dir, "NOTES.md")
-    meta["needs_to_manifest"] = open(notes).read()[:1500] if os.path.exists(notes) else ""
-    meta["what_was_run"] = "scratch worktree: git apply; pytest (existing suite); demo.py with and without the patch; then " + how
     dst = os.path.join(VERIF, "seeded", seed_id)
+    old_meta = os.path.join(dst, "meta.json")
+    if os.path.exists(notes):
+        meta["needs_to_manifest"] = open(notes).read()[:1500]
+    elif os.path.exists(old_meta):      # re-run from seeded/<id>/: keep the author's notes recorded the first time
+        meta["needs_to_manifest"] = json.load(open(old_meta)).get("needs_to_manifest", "")
+    else:
+        meta["needs_to_manifest"] = ""
+    meta["what_was_run"] = "scratch worktree: git apply; pytest (existing suite); demo.py with and without the patch; then " + how
     os.makedirs(dst, exist_ok=True)
-    shutil.copy(patch, os.path.join(dst, "patch.diff"))
-    shutil.copy(demo, os.path.join(dst, "demo.py"))
+    if os.path.abspath(seed_dir) != os.path.abspath(dst):
+        shutil.copy(patch, os.path.join(dst, "patch.diff"))
+        shutil.copy(demo, os.path.join(dst, "demo.py"))
     json.dump(meta, open(os.path.join(dst, "meta.json"), "w"), indent=1)
     print(json.dumps({k: meta[k] for k in ("confirmed", "caught_by", "caught_by_own_check")}, indent=1)[:1500])
     return 0
